@@ -78,7 +78,13 @@ class BadBool:
 class BadLen:
     def __len__(self):
         raise RuntimeError("no len")
-KINDS = {'repr': BadRepr, 'nonstr-repr': NonStrRepr, 'concat-repr': ConcatRepr, 'str': BadStr, 'eq': BadEq, 'bool': BadBool, 'len': BadLen}
+class EqualButShy:
+    def __eq__(self, other):
+        return True
+    def __repr__(self):
+        raise RuntimeError("no repr")
+    __hash__ = None
+KINDS = {'equal-but-no-repr': EqualButShy, 'repr': BadRepr, 'nonstr-repr': NonStrRepr, 'concat-repr': ConcatRepr, 'str': BadStr, 'eq': BadEq, 'bool': BadBool, 'len': BadLen}
 def mk(n):
     return KINDS[n]()
 def box(n):
@@ -92,7 +98,7 @@ def hostile():
     S.clear_sandbox()
     S.run()
     out = []
-    for kind in ('repr', 'nonstr-repr', 'concat-repr', 'str', 'eq', 'bool', 'len'):
+    for kind in ('equal-but-no-repr', 'repr', 'nonstr-repr', 'concat-repr', 'str', 'eq', 'bool', 'len'):
         for name in BIN + UN + INST + ['assert_type', 'assert_not_type']:
             for shape in ('alone', 'boxed', 'right'):
                 v = S.call('mk' if shape != 'boxed' else 'box', kind)
